@@ -76,7 +76,7 @@ def gen_chain_env(rng, force=None):
     if force is None and rng.random() < 0.3:
         force = {"cls": "UN"}        # the user-defined future with an intraday cut-off
     for _ in range(5):
-        sc = c11.generate(rng, 0, force=force)
+        sc = c11.generate_single(rng, 0, force=force)
         if not sc.get("construct_only"):
             break
     env = sc["envs"][0]
@@ -379,8 +379,10 @@ def execute(scenario):
                 break
             if scenario["envs"][tag].get("state", {}).get("twin_class"):
                 probe("same_named_observer_class_instanced_earlier")
-                got_q = sum(1 for r in alone.sink.records if r.get("kind") == "cb" and r.get("obs") == "feature" and r.get("cls") == "EventNBBO")
-                sent_q = sum(1 for r in alone.sink.records if r.get("kind") == "cb" and r.get("obs") == "state" and r.get("cls") == "EventNBBO")
+                # counted on the fresh environment (no earlier episode, hence no injected observer crash that could
+                # stop a delivery between the state's callback and the feature's)
+                got_q = sum(1 for r in fresh.sink.records if r.get("kind") == "cb" and r.get("obs") == "feature" and r.get("cls") == "EventNBBO")
+                sent_q = sum(1 for r in fresh.sink.records if r.get("kind") == "cb" and r.get("obs") == "state" and r.get("cls") == "EventNBBO")
                 if sent_q and not got_q:
                     violate("isolation", "environment {}: its feature subscribes to quotes and {} were delivered to the state, but the feature received none "
                             "(a same-named class with fewer subscriptions was instanced earlier in the process)".format("ABC"[tag], sent_q),
